@@ -4,6 +4,8 @@ CONSTANTS
   Conn <- TConn
   Home <- THome
   Addr = {"a1", "a2", "a3", "a4"}
+  Attr = {"w2", "w3", "w4"}
+  AllowReorder = FALSE
   MaxOps = 100000
   Defect_StaleClientIndexOnSync = FALSE
 POSTCONDITION TraceAccepted
